@@ -21,7 +21,9 @@ EXPLANATION = (
     'all transformation pairs x parameter equality; agreement of the '
     'float-source / quantized-source classification with the effect of each '
     'registered transformation on its source tensor; idempotent buffer '
-    'overwrite; exact parameter equality.'
+    'overwrite; exact parameter equality; the group of sharers is compared '
+    'unfiltered and every operator (known or not) records a result for its '
+    'tensors.'
 )
 LEVEL_TEXT = (
     'Decides the structural guarantees that make shared constants safe: the '
@@ -332,8 +334,8 @@ def r3_idempotent_overwrite(ctx, R='C15.R3'):
   g = cfgmod.build(f.node)
   sn = g.node_of(st)
   guards = [n for n in g.nodes if n.kind == 'if' and g.every_path_passes(g.entry.id, sn.id, {n.id})]
-  gt = [defuse.norm(n.ast.test) for n in guards]
-  ctx.check(R, any(t in ('tensor.buffer', f'{ti}.subgraph.tensors[{ti}.tensor_id].buffer') for t in gt), st, f, f'guards {gt}', 'buffer 0 (the shared empty buffer) must never be written')
+  gt = [defuse.norm(inl.inline(f, n.ast.test)) for n in guards]
+  ctx.check(R, any(t in (f'{ti}.subgraph.tensors[{ti}.tensor_id].buffer', f'{ti}.subgraph.tensors[{ti}.tensor_id].buffer != 0', f'{ti}.subgraph.tensors[{ti}.tensor_id].buffer > 0') for t in gt), st, f, f'guards {gt}', 'buffer 0 (the shared empty buffer) must never be written')
   ctx.check(R, any('quantized_data is not None' in t for t in gt), st, f, f'guards {gt}', 'the buffer must only be written when precomputed data exists')
   # parameters written to the tensor come from the same params object
   for n in common.walk_no_nested(f.node):
